@@ -17,7 +17,7 @@ common = ('-std=c++14 -DGWB_VERIF -DVTU11_ENABLE_ZLIB -DWB_USE_FP_EXCEPTIONS -DW
           f'-I{stage}/include -I{stage}/gen/include -w')
 flags = {
     'rel': '-O2 -g1',
-    'san': '-O1 -g1 -fno-omit-frame-pointer -fsanitize=address,undefined,float-cast-overflow '
+    'san': '-O1 -g1 -D_GLIBCXX_ASSERTIONS -fno-omit-frame-pointer -fsanitize=address,undefined,float-cast-overflow '
            '-fno-sanitize-recover=undefined,float-cast-overflow',
     'tsan': '-O1 -g1 -fno-omit-frame-pointer -fsanitize=thread',
 }[variant]
